@@ -49,7 +49,7 @@ PROPS = {
         'modules': ['SE.Props.C11', 'SE.Gen.TieMapper'],
         'streams': [{'component': 'mapper_c11', 'note_kinds': {'tmpl'}}, {'component': 'namerune'}],
         'level': 'proof',
-        'trusted_base': ["fmt.Sprintf is modelled for %s and %% only; results of templates that reach other % sequences are not compared (model answers `?`)", "regexp.Expand template syntax modelled from the Go source", "Go regexp semantics via the rx oracle"],
+        'trusted_base': ["fmt.Sprintf is modelled for %s and %% only (SE.Props.C11.format_total: the formatter never produces anything else)", "regexp.Expand's template syntax (its unexported `extract`) modelled from the Go source; unicode.IsLetter/IsDigit modelled for U+0000..U+027F and tied exhaustively by the namerune stream, reference names with other runes are 'not modelled' (`?`, compared by nobody)", "Go regexp matching (which groups matched what) via the rx oracle shipped by the harness"],
         'assumptions': [],
     },
     'C13': {
